@@ -20,18 +20,69 @@ def gen_preview(rng, tier):
         # valid UTF-8 without surrounding white space: drafty.PlainText (not modelled) is the identity on such strings
         txt = "".join(rng.choice(pool) for _ in range(n)).strip()
         yield "push.preview " + _hexb(txt.encode("utf-8"))
+    # formatted (Drafty) documents as any client may send them: text with styles and entities whose offsets, lengths and keys are drawn from
+    # boundary values (negative, zero, the text's length and beyond, values whose sum leaves the integer range), overlapping and nested
+    # spans, entities with and without data, unknown types, wrong JSON types in every field
+    import json as _json
+    big = [-9223372036854775808, -2, -1, 0, 1, 2, 3, 5, 8, 1000000, 2147483647, 2147483648, 4611686018427387904, 9000000000000000000, 9223372036854775807, 9e18, 1.5, "7", None, True]
+    tps = ["ST", "EM", "DL", "CO", "BR", "LN", "MN", "HT", "HD", "IM", "EX", "FM", "RW", "QQ", "", "xx", 5, None]
+    for _ in range(4000 if tier == "thorough" else 900):
+        # a well-formed document first …
+        txt = "".join(rng.choice(alph + ["\n"]) for _ in range(rng.choice([1, 3, 7, 20, 130])))
+        n = len(txt)
+        ent = [{"tp": rng.choice(["LN", "MN", "IM", "EX", "FM", "HT"]), "data": rng.choice([{"url": "http://x"}, {"val": "AAAA", "mime": "image/png", "width": 10, "height": 10, "name": "n"}, {"val": "m"}])}
+               for _ in range(rng.below(3))]
+        fmt = []
+        for _ in range(rng.below(4)):
+            at = rng.below(n + 1)
+            st = {"at": at, "len": rng.below(n - at + 1)}
+            if ent and rng.chance(1, 3):
+                st["key"] = rng.below(len(ent))
+                if rng.chance(1, 2):
+                    st["at"], st["len"] = -1, 0           # an attachment
+            else:
+                st["tp"] = rng.choice(["ST", "EM", "DL", "CO", "BR", "HD", "RW", "QQ"])
+            fmt.append(st)
+        doc = {"txt": txt}
+        if fmt:
+            doc["fmt"] = fmt
+        if ent:
+            doc["ent"] = ent
+        # … then nothing, one or a few of its fields take a boundary value or a wrong type
+        for _ in range(rng.choice([0, 1, 1, 1, 2, 2, 4])):
+            k = rng.below(8)
+            dfmt = [x for x in fmt if isinstance(x, dict)]
+            if k < 2 and dfmt:
+                # offset and length together: sums at and beyond the edges of the text and of the integer range
+                st = rng.choice(dfmt)
+                st["at"], st["len"] = rng.choice([(9223372036854775807, 1), (9223372036854775806, 2), (9e18, 9e18), (4611686018427387904, 4611686018427387904),
+                                                   (1, 9223372036854775807), (n, 9223372036854775807), (0, n + 1), (n, 1), (n + 1, 0), (-1, 1), (-1, n + 2),
+                                                   (2147483647, 2147483647), (9223372036854775807, 9223372036854775807), (-2, 3)])
+            elif k < 4 and dfmt:
+                st = rng.choice(dfmt)
+                st[rng.choice(["at", "len", "key", "at", "len"])] = rng.choice(big + [n, n + 1, n - 1])
+            elif k == 4 and dfmt:
+                rng.choice(dfmt)["tp"] = rng.choice(tps)
+            elif k == 5 and ent:
+                e = rng.choice(ent)
+                e[rng.choice(["tp", "data"])] = rng.choice([None, 5, "s", {}, {"width": rng.choice(big), "height": rng.choice(big), "val": None}, "xx"])
+            elif k == 6:
+                doc[rng.choice(["txt", "fmt", "ent"])] = rng.choice([5, None, "x", ["a"], {"x": 1}, [5, None, "y"]])
+            elif fmt:
+                fmt.append(rng.choice([5, "x", None, [1], {"at": 0, "len": n, "tp": "ST"}, {"at": 0, "len": n + 1, "tp": "EM"}]))
+        yield "push.drafty " + _hexb(_json.dumps(doc).encode("utf-8"))
 
 T = "Tinode.Props.C13."
 
 PROP = dict(
     id="C13",
     level_text="PARTIAL. The push preview of a message (128-rune truncation of arbitrary multi-byte content) is modelled with Go's rune conversion and proved total and exact, tied by a differential stream in package push/fcm. 'Never terminates the server' is decided by running every generated request - including requests to names never issued, deleted topics, unattached sessions, ill-formed mode strings, out-of-range numbers - through the real Session.dispatch/Hub/Topic code in the world stream: a panic is reported with its history (this found the hub panic of {del topic} on an ill-formed name, fix: 5cd265c). Kernel-checked Lean theorems carry the reply obligation of the transcribed handlers: a publish is always answered under every fault plan, {del topic} for an unknown name is answered, invalid notes are silent. The monitor checks on every history that each request other than a note got a reply and that unknown topics are answered with an error code.",
-    level_note='NOT covered: byte-level input (JSON parsing, the read loops), the {hi}/{login}/{acc} handlers (see C11), drafty previews, configuration variants. Known finding (root session, on-behalf-of {leave}) is recorded, proved as a witness.',
+    level_note='NOT covered: byte-level input (JSON parsing, the read loops), the {hi}/{login}/{acc} handlers (see C11), configuration variants other than 'no media handler'. Drafty previews: 900 (quick) / 4000 (thorough) generated documents per seed (a well-formed document with a few fields set to boundary values or wrong types) are run through payloadToData; the model's only claim there is that the process goes on. Known finding (root session, on-behalf-of {leave}) is recorded, proved as a witness.',
     technique='differential world stream over the real dispatch code (panic detection) + Lean 4 proof of reply obligations + history monitor',
     modules=["TinodeVerif.Props.C13"],
     theorems=[T + n for n in ['saveMessage_frames', 'pub_always_answered', 'del_unknown_topic_answered', 'invalid_note_silent', 'leave_unanswered_witness',
                               'preview_short_unchanged', 'preview_few_runes_unchanged', 'preview_long_cut', 'preview_cases']],
-    streams=[world.world_stream("C13"), dict(name="preview", pkg="fcm", gen=gen_preview, classify=lambda o, i: "cut" if len(i) < len(o.split(" ")[1]) else "kept")],
+    streams=[world.world_stream("C13"), dict(name="preview", pkg="fcm", gen=gen_preview, classify=lambda o, i: (i if o.startswith("push.drafty") else ("cut" if len(i) < len(o.split(" ")[1]) else "kept")))],
     seeds=dict(quick=1, thorough=4),
     rule="random histories of 30-120 requests per case (420 cases quick, 600 thorough per seed, every third a clause scenario with random parameters) over 4 users, 7 sessions (two per user, "
          "one background, one anonymous, one root acting for others) up to 3 group topics and the peer-to-peer topics between the users, a third of the cases with one injected "
